@@ -335,6 +335,8 @@ where
         let mut more_tokens = VecDeque::new();
 
         loop {
+            #[cfg(servo_html5ever_verif)]
+            markup5ever::verif_hooks::tick("html tree builder step");
             let should_have_acknowledged_self_closing_flag = matches!(
                 token,
                 Token::Tag(Tag {
